@@ -192,7 +192,7 @@ func init() {
 					SampleQ: "1", SampleT: "1", Invariants: []string{"InvGen", "InvPrefix", "InvComplete"}, Properties: []string{"FailedIsNoop"}}},
 			Gen: func(r *rand.Rand) []gcs.Op {
 				return genGcsProgram(r, gcsProfile{fileSafe: true, n: 22, pCond: 0.1, wUpload: 4, wResum: 2, wPatch: 0.5, wDelete: 1.5, wRead: 3, wCompose: 0.3, wCopy: 0.3, wList: 0.4, maxResum: 40, wBatch: 0.5})
-			}, NRandQ: 60, NRandT: 6000})
+			}, NRandQ: 60, NRandT: 18000})
 		// memory store only: names that are not representable as files, larger payloads
 		r := rand.New(rand.NewSource(c.Seed + 99))
 		var progs [][]gcs.Op
@@ -240,7 +240,7 @@ func init() {
 					return genComposeCondProgram(r)
 				}
 				return genGcsProgram(r, gcsProfile{fileSafe: true, n: 24, pCond: 0.6, wUpload: 3, wResum: 1, wPatch: 2, wDelete: 1.5, wRead: 0.5, wCompose: 1, wCopy: 0.2, fewNames: 3, maxResum: 20, wBatch: 0.8})
-			}, NRandQ: 50, NRandT: 6000})
+			}, NRandQ: 50, NRandT: 18000})
 	}
 	checks["C10"] = func(c *Ctx) {
 		c.rule = "cases = long request histories on few names (writes by every protocol, compose, copy, patches, reads, failures, deletes and re-creations, back-to-back with no delay): TLC-enumerated transitions of MC_GcsData (VersioningLaws as an action property) with BFS history, and seeded random histories of 80-200 requests; executed over HTTP on both stores; generation/metageneration from response headers, upload replies, metadata GETs, media GETs and listings validated step by step by TLC; distinct = distinct history text; non-trivial = at least two requests"
@@ -248,7 +248,7 @@ func init() {
 			Models: []gcsModel{dataModel},
 			Gen: func(r *rand.Rand) []gcs.Op {
 				return genGcsProgram(r, gcsProfile{fileSafe: true, n: 80 + r.Intn(60), pCond: 0.15, wUpload: 3, wResum: 0.7, wPatch: 2.5, wDelete: 1.2, wRead: 1, wCompose: 0.6, wCopy: 0.6, wList: 0.4, fewNames: 3, maxResum: 12, wBatch: 0.6})
-			}, NRandQ: 16, NRandT: 2400})
+			}, NRandQ: 16, NRandT: 7000})
 		c.Assume("strict growth of generations drawn from the wall clock between two writes in the same clock tick can only be sampled; the law itself is checked on every sampled step")
 	}
 	checks["C15"] = func(c *Ctx) {
@@ -260,7 +260,7 @@ func init() {
 					return genComposeChain(r)
 				}
 				return genGcsProgram(r, gcsProfile{fileSafe: true, n: 26, pCond: 0.1, wUpload: 3, wResum: 0.3, wPatch: 0.7, wDelete: 0.7, wRead: 0.5, wCompose: 3, wCopy: 2.5, wList: 0.2, maxResum: 12})
-			}, NRandQ: 60, NRandT: 6000})
+			}, NRandQ: 60, NRandT: 18000})
 	}
 }
 
